@@ -76,6 +76,19 @@ func c11Contents(full bool) []c11Content {
 		{2, "max", 255, "1"}, {0, "min", 254, "1"},
 	}
 	if full {
+		// the full product of the design's count and size menus
+		for _, m := range []int{0, 1, 2, 3, 21, 22, 254, 255, 256, 300} {
+			for _, u := range []int{0, 1, 2, 253, 254, 255, 256, 257, 300, 700} {
+				for _, mm := range []string{"min", "mid", "max", "mix"} {
+					for _, us := range []string{"1", "2", "40", "fill", "fill-1", "mix"} {
+						if m == 0 && mm != "min" || u == 0 && us != "1" {
+							continue
+						}
+						out = append(out, c11Content{m, mm, u, us})
+					}
+				}
+			}
+		}
 		out = append(out, c11Content{21, "min", 0, "1"}, c11Content{254, "min", 0, "1"}, c11Content{255, "min", 3, "2"}, c11Content{256, "mid", 0, "1"},
 			c11Content{0, "min", 253, "1"}, c11Content{0, "min", 255, "1"}, c11Content{0, "min", 256, "2"}, c11Content{1, "max", 700, "mix"})
 	}
